@@ -355,6 +355,18 @@ func runC05(seed int64, tier string, sc *Script) map[string]any {
 				if blobsDir != "" {
 					ans += fmt.Sprintf(" blobs=%d", countFiles(blobsDir))
 				}
+				if kind == "file" {
+					// the same content addressed without its name (digest -> path map, then fallback)
+					plain := tc.d.oci()
+					pex, pexErr := st.Exists(ctx, plain)
+					pexs := "0"
+					if pexErr != nil {
+						pexs = "err"
+					} else if pex {
+						pexs = "1"
+					}
+					ans += fmt.Sprintf(" pexists=%s pfetch=%s", pexs, rawFetch(ctx, st, plain))
+				}
 				sc.Op(ans, "v push %s reader=%s", tc.d, fmtReader(tc.rd))
 				if blobsDir != "" {
 					sc.Op(fmt.Sprint(countFiles(ingestDir)), "v ingestcount")
